@@ -13,6 +13,7 @@ PO(t) == [t |-> t, k |-> N, g |-> N, opt |-> TRUE, b |-> N]
 PQ(t) == [t |-> t, k |-> "k", g |-> N, opt |-> TRUE, b |-> N]
 PB(b) == [t |-> b, k |-> N, g |-> N, opt |-> FALSE, b |-> b]
 B3 == <<PB("ctx"), PB("scope"), PB("prov")>>
+PBK(b) == [t |-> b, k |-> "k", g |-> N, opt |-> FALSE, b |-> N]   \* a built-in TYPE requested with a name: not a built-in
 PE(t) == P(t) @@ [emb |-> TRUE]      \* declared as an embedded (anonymous) field of the parameter object
 
 R(id, life, slot, var, shape, po, params) ==
@@ -155,6 +156,18 @@ KindCfg(kd) == C("kind-" \o kd, <<Kinded(R("r1", SG, 0, "a", "ctorerr", FALSE, <
                                    Kinded(R("r3", TR, 1, "a", "ctorerr", FALSE, <<>>), kd),
                                    Kinded(Named(R("r4", SG, 1, "b", "ctorerr", FALSE, <<>>)), kd)>>)
 KindCfgs == {KindCfg(kd) : kd \in {"closure", "method", "generic", "makefunc"}}
+\* the SAME function literal registered twice under different names and lifetimes, both depending on a scoped
+\* service: the analysis (and its dependency list) is shared, the lifetimes are not
+KindCaptive == C("kindcaptive", <<R("r0", SC, 2, "a", "ctorerr", FALSE, <<>>),
+                                  Kinded(R("r1", SC, 1, "a", "ctorerr", FALSE, <<P("S2")>>), "closure"),
+                                  Kinded(Named(R("r2", SG, 1, "b", "ctorerr", FALSE, <<P("S2")>>)), "closure")>>)
+KindCaptiveTr == C("kindcaptivetr", <<R("r0", SC, 2, "a", "ctorerr", FALSE, <<>>),
+                                      Kinded(R("r1", SC, 1, "a", "ctorerr", FALSE, <<P("S2")>>), "closure"),
+                                      Kinded(Named(R("r2", TR, 1, "b", "ctorerr", FALSE, <<P("S2")>>)), "closure")>>)
+\* a required NAMED field of a built-in type: nobody can provide it (reserved types cannot be registered)
+KeyedBuiltinDep == C("keyedbuiltindep", <<R("r1", SG, 0, "a", "ctorerr", FALSE, <<>>),
+                                          R("r2", SC, 1, "a", "ctorerr", TRUE, <<PBK("ctx")>>)>>)
+KeyedBuiltinDepTr == C("keyedbuiltindeptr", <<R("r1", TR, 1, "a", "ctorerr", TRUE, <<PBK("ctx")>>)>>)
 CfgKinds == KindCfgs
 
 \* result object with a group field; multiple returns combined with Name / Group
@@ -311,7 +324,7 @@ CfgMore == {Iface, IfaceSing, Embedded, AliasDeps, DupDeps, DiamondPO, DiamondPO
 Plain == {Basic, Chain, Keyed, Group, GroupScoped, GroupDeps, Multi, MultiTr, OutKN, OutKNSing, Alias1, Alias2,
           Alias2Scoped, Diamond2, Optional, Inits, InitSing, Builtin, InstVal, InstVals, InstValsV} \cup CfgForms \cup CfgMore \cup CfgRemoved
 Defective == {Cycle2, CycleGroup, Captive, CaptiveGroup, MissingDep, GroupMixedCaptive, GroupMixedCaptive2, CycleOptional, MissingKeyed}
-             \cup CfgRemovedDefective \cup {CycleEmbedded, CaptiveAlias2, CaptiveAlias2Tr, CycleAlias, InitTransientMissing, InitSingMissing}
+             \cup CfgRemovedDefective \cup {CycleEmbedded, CaptiveAlias2, CaptiveAlias2Tr, CycleAlias, InitTransientMissing, InitSingMissing, KindCaptive, KindCaptiveTr, KeyedBuiltinDep, KeyedBuiltinDepTr}
 
 Hows == {"err", "panic"}
 \* a scripted error needs a constructor shape that can return one
